@@ -215,6 +215,9 @@ class C13(Check):
             def attempt(use_mode, first_benign=False):
                 peer = SimPeer()
                 peer.pages['http://sim.test/secret.txt'] = EXT_MARK.encode()
+                # the origin a stream's .url attribute names answers a (second) fetch with a harmless document:
+                # bytes that were never parsed must not be what gets checked
+                peer.pages['http://sim.test/stream.xml'] = benign
                 peer.install()
                 res = self.attempt(xmlschema, world, peer, chan, use_mode, role, doc, benign, plan,
                                    case['peer'], tns)
